@@ -82,6 +82,12 @@ type hsObs struct {
 // gwConnect runs the real Dial and Accept against each other over a link.
 func gwConnect(hD, hA gateway.Header, ab, ba dirPlan, deadline time.Duration) (dt, at *gateway.Transport, derr, aerr error, l *link) {
 	l = newLink(gwDialHost+":"+gwDialPort, gwAcceptHost+":"+gwAcceptPort, ab, ba, deadline)
+	dt, at, derr, aerr = gwConnectOn(l, hD, hA)
+	return
+}
+
+// gwConnectOn runs the real Dial and Accept against each other over the two ends of l.
+func gwConnectOn(l *link, hD, hA gateway.Header) (dt, at *gateway.Transport, derr, aerr error) {
 	var wg sync.WaitGroup
 	wg.Add(1)
 	go func() {
@@ -276,9 +282,14 @@ type gwPeer struct {
 }
 
 func gwOpen(ab, ba dirPlan, deadline time.Duration) (*gwPeer, error) {
+	return gwOpenOn(newLink(gwDialHost+":"+gwDialPort, gwAcceptHost+":"+gwAcceptPort, ab, ba, deadline))
+}
+
+// gwOpenOn establishes a real gateway session over the two ends of l.
+func gwOpenOn(l *link) (*gwPeer, error) {
 	hD := gateway.Header{GenesisID: gwGenesis(1), UniqueID: gwUID(1), NetAddress: "203.0.113.5:" + gwDialListen}
 	hA := gateway.Header{GenesisID: gwGenesis(1), UniqueID: gwUID(2), NetAddress: "198.51.100.7:" + gwAcceptListen}
-	dt, at, derr, aerr, l := gwConnect(hD, hA, ab, ba, deadline)
+	dt, at, derr, aerr := gwConnectOn(l, hD, hA)
 	if derr != nil || aerr != nil {
 		l.Close()
 		return nil, fmt.Errorf("gateway handshake: dial %v, accept %v", derr, aerr)
